@@ -101,9 +101,32 @@ def run(prog):
     # (7) sort fast paths key on NumValue / IStr (Ord by content), generic paths on evaluate_compare_op
     obs.extend(check_sort(prog))
     obs.extend(check_div_guard(prog))
+    obs.extend(check_safe_integer_consts(prog))
     obs.extend(check_f64_into_untyped(prog))
     floors = [Floor(RULE, "obligations", len([o for o in obs if o.status != "info"]), 14)]
     return obs, floors, {"f64_partial_cmp_sites": n_cmp_sites}
+
+
+def check_safe_integer_consts(prog):
+    """the bounds of the bitwise / integer-conversion range tests are +-(2^53 - 1), bit for bit (const-evaluated by the compiler)"""
+    import struct
+    obs = []
+    want = {"jrsonnet_evaluator::typed::conversions::MAX_SAFE_INTEGER": 9007199254740991.0,
+            "jrsonnet_evaluator::typed::conversions::MIN_SAFE_INTEGER": -9007199254740991.0}
+    got = {}
+    for unit, c in prog.consts():
+        if c["path"] in want and c["ty"] == "f64":
+            got[c["path"]] = struct.unpack("<d", struct.pack("<Q", int(c["bits"])))[0]
+    for path, w in want.items():
+        key = "const:%s" % path.rsplit("::", 1)[1]
+        if path not in got:
+            obs.append(bad(RULE, key, "", "constant %s not found (or not an f64)" % path))
+        elif got[path] != w:
+            obs.append(bad(RULE, key, "", "%s evaluates to %r, expected %r: the safe-integer range test of the bitwise operators and integer conversions is off by one "
+                           "at the boundary" % (path.rsplit("::", 1)[1], got[path], w)))
+        else:
+            obs.append(ok(RULE, key, "", "%s = %r" % (path.rsplit("::", 1)[1], w)))
+    return obs
 
 
 def arm_op(arm):
